@@ -634,6 +634,65 @@ def verify_late_throw_exemptions(rep, idx, rid='R4'):
             '; '.join(bad)[:600] if bad else '%d (construction site, mnemonic) pairs, all have a case in tokenToInstr' % n_sites)
 
 
+def rule_r8(rep, idxs):
+    rep.rule('R8', 'an option\'s value takes effect: an object that is constructed from a variable which the argument loop assigns (e.g. the '
+             'cycle limit passed by value to the simulator) is constructed after that loop, not before it', floor=2,
+             floor_reason='hexsim.cpp and xrun.cpp construct the simulator from maxCycles')
+    for tu in ('hexsim.cpp', 'xrun.cpp'):
+        idx = idxs[tu]
+        m = main_of(idx)
+        order = {id(n): k for k, n in enumerate(walk(m.body))}
+        loops = [n for n in walk(m.body) if n['kind'] == 'ForStmt' and any(x['kind'] == 'StringLiteral' for x in walk(n))]
+        if len(loops) != 1:
+            rep.undecided('R8', tu + ':option-loop', 'argument parsing is not a single for-loop over argv: idiom not recognised', pos(m.node))
+            continue
+        loop = loops[0]
+        assigned = set()
+        for x in walk(loop):
+            if x['kind'] == 'BinaryOperator' and x.get('opcode') == '=':
+                v = cast.decl_ref(children(x)[0])
+                if v:
+                    assigned.add(v)
+        n = 0
+        for d in walk(m.body):
+            if d['kind'] != 'VarDecl' or 'Processor' not in qt(d):
+                continue
+            used = {(x.get('referencedDecl') or {}).get('id') for c in children(d) for x in walk(c) if x['kind'] == 'DeclRefExpr'} & assigned
+            if not used:
+                continue
+            n += 1
+            names = sorted(idx.by_id[v].get('name', '?') for v in used if v in idx.by_id)
+            early = order[id(d)] < order[id(loop)]
+            rep.add('R8', '%s:%s constructed from %s' % (tu, d.get('name'), ','.join(names)), not early, pos(d) + ' main(%s)' % tu,
+                    ('%s is constructed (copying %s) before the loop that parses the options: the option is accepted and ignored'
+                     % (d.get('name'), ','.join(names))) if early else 'constructed after the options have been parsed')
+        if n == 0:
+            rep.undecided('R8', tu + ':option-consumer', 'no object constructed from an option variable found: idiom not recognised', pos(m.node))
+
+
+def rule_r9(rep, idxs):
+    rep.rule('R9', 'an empty source is a source: where a tool copies its input with `stream << other.rdbuf()`, the target\'s state is reset '
+             'afterwards -- inserting an empty stream buffer sets failbit (and never eofbit), after which the lexer cannot reach '
+             'END_OF_FILE; a lexer that reads the file directly is not affected', floor=2, floor_reason='hexasm.cpp and xcmp.cpp lexers')
+    for tu, ns in (('hexasm.cpp', 'hexasm'), ('xcmp.cpp', 'xcmp')):
+        idx = idxs[tu]
+        hits = []
+        for f in idx.all_funcs():
+            if f.body is None or not f.qname.startswith(ns + '::Lexer'):
+                continue
+            for c in calls_in(f.body):
+                kind, name, did, obj = callee_of(c)
+                if name == 'operator<<' and any(callee_of(x)[1] == 'rdbuf' for x in calls_in(c)):
+                    cleared = any(callee_of(x)[1] == 'clear' and 'stream' in (dqt_all(callee_of(x)[3]) if callee_of(x)[3] is not None else '')
+                                  for x in calls_in(f.body))
+                    hits.append((f.qname, pos(c), cleared))
+        bad = [h for h in hits if not h[2]]
+        rep.add('R9', tu + ':lexer-input-copy', not bad, (bad[0][1] if bad else tu) + ' ' + ns + '::Lexer',
+                ('%s copies the source with << rdbuf() and never clears the stream state: for an empty file failbit is set and the lexer '
+                 'never sees the end of the input (an empty source is rejected instead of assembled)' % bad[0][0]) if bad else
+                ('the lexer reads its stream directly' if not hits else 'stream state is cleared after the copy'), nontrivial=bool(hits))
+
+
 def reachable_throws(idx, stmts, depth=10):
     """{qualified function: position} of throw expressions reachable through resolved callees."""
     out = {}
@@ -785,3 +844,5 @@ def run(rep, tier):
     rule_r5(rep, idxs)
     rule_r6(rep, idxs)
     rule_r7(rep, idxs)
+    rule_r8(rep, idxs)
+    rule_r9(rep, idxs)
